@@ -676,6 +676,11 @@ func normalizePath(dst, src []byte) []byte {
 		b = b[:len(b)-nn+n]
 	}
 
+	// remove trailing /. (RFC 3986 5.2.4 2B: "/." -> "/")
+	if len(b) >= 2 && b[len(b)-1] == '.' && b[len(b)-2] == '/' {
+		b = b[:len(b)-1]
+	}
+
 	// remove /foo/../ parts
 	for {
 		n := bytes.Index(b, strSlashDotDotSlash)
